@@ -8,4 +8,12 @@ PROPS = {
                 "c10.dnsrw compares the full dump with the Lean model, c10.shape evaluates the Lean shape predicate on the "
                 "implementation's own result; non-trivial = the value was accepted; distinct by hash of the op input",
     },
+    "C18": {
+        "families": [fam("c18", 2500, 40000)],
+        "defects": ["D11"],
+        "rule": "lines from the hosts grammar (IPv4/IPv6/mapped/zoned/invalid addresses, 1..8 names, space/tab runs, comments with and "
+                "without a preceding blank incl. tab, trailing blanks) plus byte mutations, through NewHostRule, NewRule and a real "
+                "DNSEngine (every listed name, near misses and an unlisted name are queried); non-trivial = a host rule was produced; "
+                "distinct by hash of the op input",
+    },
 }
